@@ -36,7 +36,7 @@ func init() {
 			"p4create": {N: func(t string) int { return tierN(t, 3, 160) }, Case: c15Case("p4"), Race: true, Env: raceEnv()},
 			"p5faulty": {N: func(t string) int { return tierN(t, 4, 240) }, Case: c15Case("p5"), Race: true, Env: raceEnv()},
 			"p6twodbs": {N: func(t string) int { return tierN(t, 3, 160) }, Case: c15Case("p6"), Race: true, Env: raceEnv()},
-			"p7batch":  {N: func(t string) int { return tierN(t, 1, 6) }, Case: c15Case("p7"), Race: true, Env: raceEnv()},
+			"p7batch":  {N: func(t string) int { return tierN(t, 8, 48) }, Case: c15Case("p7"), Race: true, Env: raceEnv()},
 		},
 	})
 }
@@ -514,13 +514,13 @@ func c15Create(c *rt.CaseResult, seed int64, idx int, scratch string) [][]tlog {
 }
 
 func init() {
-	Registry["C15"].Rule += " P7: clean-up batches of several thousand versions, i.e. more chunks of the cleaner than three times the workers (rollbacks and commits of transactions with 4300-8300 writes, one worker or two) while other goroutines write and read. P6: two or three databases in one process (the third behind the server), each driven by its own goroutines at the same time. P5: the steady workload (inline and through the server) with faults injected by stateless fault functions - a few percent of the content writes fail (no space, fully or after half the chunk; EIO), of the metadata writes and file creations fail, one root reports less free space than the other, and one call in eight carries a context that expires within 20-600 us - so that the error and clean-up paths run concurrently under the race detector too."
+	Registry["C15"].Rule += " P7: clean-up batches of several thousand versions, i.e. more chunks of the cleaner than three times the workers (rollbacks of transactions with 4300-5000 deletions, one worker) while other goroutines write and read. P6: two or three databases in one process (the third behind the server), each driven by its own goroutines at the same time. P5: the steady workload (inline and through the server) with faults injected by stateless fault functions - a few percent of the content writes fail (no space, fully or after half the chunk; EIO), of the metadata writes and file creations fail, one root reports less free space than the other, and one call in eight carries a context that expires within 20-600 us - so that the error and clean-up paths run concurrently under the race detector too."
 }
 
 // c15BigBatch: one goroutine ends transactions whose clean-up is larger than one chunk of the
 // cleaner while others keep the database busy.
 func c15BigBatch(c *rt.CaseResult, seed int64, idx int, scratch string) [][]tlog {
-	env, err := dbx.Open(dbx.Options{Mode: dbx.Inline, Dir: filepath.Join(scratch, "db"), NumWorkers: 1 + idx%2, SendDuration: []time.Duration{1, time.Millisecond}[idx%2], GCPeriod: 50 * time.Millisecond})
+	env, err := dbx.Open(dbx.Options{Mode: dbx.Inline, Dir: filepath.Join(scratch, "db"), NumWorkers: 1, SendDuration: []time.Duration{1, time.Millisecond}[idx%2], GCPeriod: 50 * time.Millisecond})
 	if err != nil {
 		c.Violate("open-failed", err.Error(), nil)
 		return [][]tlog{{}}
@@ -543,14 +543,11 @@ func c15BigBatch(c *rt.CaseResult, seed int64, idx int, scratch string) [][]tlog
 			}
 		}(g)
 	}
-	rounds := 1
-	if idx > 0 {
-		rounds = 3
-	}
+	rounds := 1 // one batch per case: the cases run in parallel processes, later rounds on the same database are far slower
 	for round := 0; round < rounds; round++ {
 		// more chunks of a thousand than three times the workers: the chunks queue up behind
 		// each other and the sender is well ahead of the workers
-		n := (3*(1+idx%2)+1)*1000 + 300 + 500*round
+		n := 4300 + 100*(idx%8) + 500*round
 		s := time.Since(t0)
 		tx, err := env.DB.Begin(ctxBg, verif.IsoLevel(1))
 		if err != nil {
@@ -560,14 +557,14 @@ func c15BigBatch(c *rt.CaseResult, seed int64, idx int, scratch string) [][]tlog
 			if i%64 == 0 {
 				rt.Beat()
 			}
-			if round == 1 {
+			if round == 1 && idx%4 == 3 {
 				tx.Set(ctxBg, fmt.Sprintf("big%d", i%(n/2)), []byte("v")) // every key twice: the commit supersedes half of the writes
 			} else {
 				tx.Delete(ctxBg, fmt.Sprintf("big%d", i))
 			}
 		}
 		kind := "rollback-big"
-		if round == 1 {
+		if round == 1 && idx%4 == 3 {
 			kind = "commit-big"
 			tx.Commit(ctxBg)
 		} else {
